@@ -111,18 +111,43 @@ def r1_steps(ctx):
         tgt = loop.target.elts[-1].id if isinstance(loop.target, ast.Tuple) else getattr(loop.target, "id", "?")
         ctx.form(a1.replace('"', "'") == f"{tgt}['otype']", SOLVER, "ExpressionSolver.solve",
                   "step-loop passes the group's own otype", detail=a1)
-        # the class tuple is built from the same group's operator names, filtered only by configuration
-        src = None
-        a0 = calls[0].args[0]
-        if isinstance(a0, ast.Name):
-            for st in loop.body:
-                if isinstance(st, ast.Assign) and norm(st.targets[0]) == a0.id:
-                    src = st.value
+        # the class tuple is built from the same group's operator names, filtered only by configuration:
+        # decided on the resolved first argument of operate() in one iteration of the step loop
+        from ..flowexpr import explore
+        ex = explore(solve)
+        its = [v for v in ex.iterations.values() if v[0] is loop]
+        args0 = set()
+        G = None
+        if its:
+            lp_, start, ips = its[0]
+            for q in ips:
+                for e in q.events[start:]:
+                    if e.resolved is None:
+                        continue
+                    for c in ast.walk(e.resolved):
+                        if isinstance(c, ast.Call) and isinstance(c.func, ast.Attribute) and c.func.attr == "operate" and len(c.args) == 2:
+                            args0.add(c.args[0])
+            G = next((n.id for a in args0 for n in ast.walk(a) if isinstance(n, ast.Name) and n.id.startswith(tgt + "@loop")), None)
+        base_forms = set()
+        if G:
+            for q_ in ('"', "'"):
+                for keys in (".keys()", ""):
+                    for wrap in ("tuple([{}])", "tuple({})", "[{}]", "tuple(({}))"):
+                        base_forms.add(wrap.format(f"self.operators[_c0] for _c0 in {G}[{q_}operators{q_}] if _c0 in self.operators{keys}"))
+        from ..model import cnorm
+        texts = sorted({cnorm(a).replace('"', "'") for a in args0})
+        base_forms = {b.replace('"', "'") for b in base_forms}
+        if texts and all(t in base_forms for t in texts):
+            ctx.holds(SOLVER, "ExpressionSolver.solve", "step-loop selects classes of the group's names", detail=texts[0])
         else:
-            src = a0
-        s = norm(src) if src is not None else ""
-        ctx.form(f"{tgt}['operators']" in s.replace('"', "'") and "self.operators[" in s, SOLVER,
-                  "ExpressionSolver.solve", "step-loop selects classes of the group's names", detail=s)
+            # a further selection applied on top of the configured classes drops operators the step table lists
+            narrowed = [a for a in args0 if any(isinstance(c, (ast.ListComp, ast.GeneratorExp)) and c.generators and c.generators[0].ifs and
+                                                any(cnorm(x).replace('"', "'") in base_forms for x in ast.walk(c.generators[0].iter)) for c in ast.walk(a))]
+            if narrowed:
+                ctx.violated(SOLVER, "ExpressionSolver.solve", "step-loop selects classes of the group's names", detail=[norm(a)[:200] for a in narrowed],
+                             expected="every configured operator named by the group takes part in the group's pass (operators may be created during earlier passes)")
+            else:
+                ctx.unrecognised(SOLVER, "ExpressionSolver.solve", "step-loop selects classes of the group's names", f"shape not recognised: {texts[:1]}")
 
 
 # ---------------------------------------------------------------- R2
